@@ -499,6 +499,20 @@ class Tape:
             n = self.nodes[i]
             if n.const and n.parents and any(not self.nodes[q].const for q in n.parents):
                 return []  # a forced-constant result cuts the gradient: FD would not see the cut
+            # a kink within reach of the finite-difference step: nothing to validate against
+            v = [self.nodes[q].val for q in n.parents]
+            k, p = n.kind, n.params
+            eps = 1e-3
+            if k == "ew2" and p["fn"] in ("maximum", "minimum") and np.any(np.abs(np.subtract(*np.broadcast_arrays(v[0], v[1]))) < eps):
+                return []
+            if k == "ew1" and p["fn"] == "abs" and np.any(np.abs(v[0]) < eps):
+                return []
+            if k == "clip" and ((p["lo"] is not None and np.any(np.abs(v[0] - p["lo"]) < eps)) or (p["hi"] is not None and np.any(np.abs(v[0] - p["hi"]) < eps))):
+                return []
+            if k == "reduce" and p["fn"] in ("max", "min") and v[0].size > 1:
+                srt = np.sort(v[0].ravel())
+                if np.any(np.diff(srt) < eps):
+                    return []
         saved = [(n, n.severed) for n in self.nodes]
         for n, _ in saved:
             n.severed = False
